@@ -103,8 +103,9 @@ class SqliteStorage(AbstractStorage):
 
             check_for_migration(self)
 
-        self.last_commit = datetime.now()
-        self.num_uncommitted_statements = 0
+        # The migration may have left statements in the open transaction: commit them instead of
+        # resetting the counter, so that no pending write goes uncounted.
+        self.commit()
 
     def commit(self):
         """
